@@ -15,7 +15,7 @@ RULE = ("auth cases: registered method × presented credentials (Basic header sh
         "device-authorization endpoints with a before/after snapshot of the store; assertion cases: client_assertion JWTs with each claim mutated and replayed; "
         "non-trivial = distinct case presenting at least one credential")
 ASSUMPTIONS = ["reference integrator: check_client_secret = equality, check_endpoint_auth_method(m, ep) = (ep == 'token' → registered method == m)",
-               "the JWT assertion method (RFC 7523) is checked by correspondence with an independent oracle only; its jti store is the integrator's"]
+               "the JWT assertion method (RFC 7523): signature primitives are abstract in the model (Model/ClientAssertion takes the JWS verdict as input); its jti store is the integrator's"]
 
 CLIENTS = [("basic", "sb", "client_secret_basic"), ("post", "sp", "client_secret_post"), ("pub", "", "none"), ("both", "s:x y%", "client_secret_basic"),
            ("jwtc", "jwt-shared-secret-jwt-shared-secret", "client_assertion_jwt"), ("pkjwt", "unused", "client_assertion_jwt")]
